@@ -483,10 +483,10 @@ theorem step_sec_srv_bad (t : Nat) (peer : Cfg) (r : Bytes) (hs : cfg.isServer =
       = some (fail (secS .serverExpectHello r) .auth) := by
   have hlen : (helloTok peer).length ≤ 600 := by
     simp [helloTok, lenPrefixed, helloBody, Gen.plainHello]; omega
-  have hdec : decodeBuffer cfg.maxMsgSize (helloBytes peer ++ r) = .frame (cmdFrame (helloTok peer)) r := by
+  have hdec : decodeBuffer (hsLimit cfg) (helloBytes peer ++ r) = .frame (cmdFrame (helloTok peer)) r := by
     apply decodeBuffer_encode'
     · simp only [cmdFrame, two64]; omega
-    · exact Or.inl hmax
+    · exact Or.inl ((hsLimit_neg_iff cfg).mpr hmax)
   have hcred : (cfg.plainUser == some (peer.plainUser.getD []) && cfg.plainPass == some (peer.plainPass.getD [])) = false := by
     rcases hwrong with h | h
     · simp [h]
@@ -602,7 +602,7 @@ def dat (acc : Bytes) : Eng :=
 
 theorem decode_ready (peer : Cfg) (r : Bytes) (hid : peer.routingId.length ≤ 255)
     (hadm : cfg.maxMsgSize < 0 ∨ 6 + (encodeProps (localReadyProps peer)).length ≤ cfg.maxMsgSize.toNat) :
-    decodeBuffer cfg.maxMsgSize (readyBytes peer ++ r) = .frame (cmdFrame (readyBody peer)) r := by
+    decodeBuffer (hsLimit cfg) (readyBytes peer ++ r) = .frame (cmdFrame (readyBody peer)) r := by
   rw [readyBytes_eq]
   have hl := readyBody_length peer
   have hb : (encodeProps (localReadyProps peer)).length ≤ 300 := by
@@ -614,7 +614,7 @@ theorem decode_ready (peer : Cfg) (r : Bytes) (hid : peer.routingId.length ≤ 2
       cases peer.sockType <;> simp [SockName.bytes, ascii] <;> omega
   apply decodeBuffer_encode'
   · simp only [cmdFrame, hl, two64]; omega
-  · simp only [cmdFrame, hl]; exact hadm
+  · simp only [cmdFrame, hl]; exact admits_hsLimit hadm
 
 theorem step_ready_ok (peer : Cfg) (r : Bytes) (hid : peer.routingId.length ≤ 255)
     (hadm : cfg.maxMsgSize < 0 ∨ 6 + (encodeProps (localReadyProps peer)).length ≤ cfg.maxMsgSize.toNat)
